@@ -53,6 +53,8 @@ def run(F, rep, tier):
         rep.missing_anchor(rid, "positive control: scan() must be recognised as building the grid with Vec::push")
     orientation_rule(F, rep)
     plane_invariant_rule(F, rep)
+    from props import c19_glyphs
+    c19_glyphs.run(F, rep)
     rep.explanation += " Recognition fidelity (same table as drawn, same result as the XML form) is geometry over run-time grids and is not decided."
 
 
